@@ -221,6 +221,10 @@ def lp_case(rng, s):
             raise ValueError(f"logpdf shape {np.shape(o)}")
         o, o2 = float(o), float(o2)
         c["jit_same"] = bool(o == o2 or abs(o - o2) <= 1e-5 * (1 + abs(o)))
+        # the density site vectorised over the value (keyword parameters go through the log-density batching
+        # rule's kwargs branch): every lane equals the scalar result
+        ov = modular_vmap(lambda vv: call(d.logpdf, s, params, vv), in_axes=(0,))(jnp.stack([jarr(v)] * 3))
+        c["jit_same"] = c["jit_same"] and bool(np.shape(ov) == (3,) and np.allclose(np.asarray(ov, dtype=np.float64), o, rtol=1e-5, atol=1e-5, equal_nan=True))
         if math.isnan(o):
             c["obs"] = "nan"
         elif math.isinf(o):
